@@ -441,6 +441,12 @@ impl QSim {
             .map_err(|_| "panic in VirtQueue::new".to_string())?
             .map_err(|e| format!("VirtQueue::new failed: {:?}", e))?;
         let reg = *st.borrow().queues.get(&0).ok_or("queue_set was not called")?;
+        // the three areas handed to the device must be device addresses of live DMA memory
+        for (what, a, len) in [("descriptor table", reg.desc, 16 * cfg.size), ("driver area", reg.driver, 6 + 2 * cfg.size), ("device area", reg.device, 6 + 8 * cfg.size)] {
+            if mem::with(|l| l.region_of(a, len)).is_none() {
+                return Err(format!("AREA: {} registered at {:#x} (+{}) is not inside any live DMA allocation", what, a, len));
+            }
+        }
         let dev = VqDev::new(0, reg, cfg.indirect, cfg.event_idx);
         let core = Rc::new(RefCell::new(Core {
             cfg,
@@ -1135,6 +1141,16 @@ pub fn run_history(cfg: QCfg, knobs: &Knobs, seed: u64, keep_oplog: bool, focus_
     let mut rng = Rng::new(seed);
     let mut sim = match QSim::new(cfg, knobs.clone(), rng.next()) {
         Ok(s) => s,
+        Err(e) if e.starts_with("AREA: ") => {
+            let d = format!("{} ({})", &e[6..], cfg.describe());
+            return CaseOutcome {
+                viol: vec![
+                    Viol { prop: "C04", rule: "queue_area_address_not_from_dma_allocation", detail: d.clone(), fatal: true },
+                    Viol { prop: "C06", rule: "area_outside_dma", detail: d, fatal: true },
+                ],
+                counters: BTreeMap::new(), nontrivial: false, hash: 0, oplog: vec![], steps_done: 0,
+            };
+        }
         Err(e) => {
             return CaseOutcome { viol: vec![Viol { prop: "C06", rule: "queue_creation_failed", detail: format!("{} ({})", e, cfg.describe()), fatal: true }], counters: BTreeMap::new(), nontrivial: false, hash: 0, oplog: vec![], steps_done: 0 };
         }
